@@ -659,3 +659,166 @@ def run_one(main, choices=(), expect=None, timer_budget=0, audited=(), step=None
     if s.status == "diverged":
         raise HarnessError("replay diverged: %s (choices=%r)" % (ex.detail, list(choices)))
     return ex
+
+
+# ---------------------------------------------------------------------------
+# proof obligations of the scheduler itself (./check selftest)
+
+
+def selftest():
+    import queue as real_queue
+
+    out = []
+    install()
+    q = shim_queue()
+
+    # 1. shim fidelity: the same scenarios on real threading/queue and on the shim (default schedule)
+    def scenario(T, Q):
+        log = []
+        qq = Q.Queue(2)
+        done = T.Event()
+
+        def producer():
+            for i in range(5):
+                qq.put(i)
+            done.set()
+
+        def consumer():
+            got = []
+            while len(got) < 5:
+                got.append(qq.get(True, 5))
+                qq.task_done()
+            log.append(("consumed", got))
+
+        a = T.Thread(target=producer)
+        b = T.Thread(target=consumer)
+        a.start()
+        b.start()
+        a.join()
+        b.join()
+        qq.join()
+        log.append(("done", done.is_set(), qq.qsize(), qq.unfinished_tasks, qq.empty()))
+        # bounded put with timeout raises Full; get on empty raises Empty
+        q2 = Q.Queue(1)
+        q2.put("x")
+        try:
+            q2.put("y", True, 0.01)
+            log.append("put-no-full")
+        except Q.Full:
+            log.append("Full")
+        q2.get()
+        try:
+            q2.get(True, 0.01)
+        except Q.Empty:
+            log.append("Empty")
+        # lock / rlock / condition / event tables
+        l = T.Lock()
+        log.append(("lock", l.acquire(False), l.acquire(False), l.locked()))
+        l.release()
+        r = T.RLock()
+        log.append(("rlock", r.acquire(False), r.acquire(False)))
+        r.release()
+        r.release()
+        c = T.Condition()
+        with c:
+            log.append(("cond-timeout", c.wait(0.01)))
+        e = T.Event()
+        log.append(("event", e.is_set(), e.wait(0.01)))
+        e.set()
+        log.append(("event-set", e.is_set(), e.wait(0.01)))
+        e.clear()
+        log.append(("event-clear", e.is_set()))
+        return log
+
+    real = scenario(_rt, real_queue)
+    holder = {}
+
+    def main():
+        holder["log"] = scenario(shim_threading, q)
+
+    ex = run_one(main)
+    out.append(("shim threading/queue agree with the real ones on the fidelity scenarios", ex.status == "ok" and holder.get("log") == real,
+                "" if holder.get("log") == real else "real=%r shim=%r" % (real, holder.get("log"))))
+
+    # 2. replay determinism + 3. racy harness shows both orders + 4. deadlock detection
+    from mc import explore
+
+    class Racy(object):
+        audited = ()
+
+        def __init__(self):
+            self.order = []
+
+        def main(self):
+            def w(n):
+                l.acquire()
+                self.order.append(n)
+                l.release()
+            l = Lock()
+            ts = [MThread(target=w, args=(i,)) for i in range(2)]
+            for t in ts:
+                t.start()
+            for t in ts:
+                t.join()
+
+        def final(self, s):
+            return (tuple(self.order), [])
+
+    part_obs = set()
+    stack = [([], [])]
+    n = 0
+    while stack:
+        choices, expect = stack.pop()
+        exr = explore.run_harness(Racy, choices, expect, 0)
+        n += 1
+        part_obs.add(exr.obs)
+        stack.extend(explore.children(exr.points, len(choices), 1, 0))
+    out.append(("exploration of a racy two-thread harness reaches both orders", part_obs == {(0, 1), (1, 0)}, "executions=%d observations=%r" % (n, sorted(part_obs))))
+    sch = [p.choice for p in exr.points]
+    a = explore.run_harness(Racy, sch, None, 0, record_trace=True)
+    b = explore.run_harness(Racy, sch, None, 0, record_trace=True)
+    out.append(("a recorded schedule replays to the identical trace and observation", a.trace_log == b.trace_log and a.obs == b.obs, ""))
+
+    class Dead(object):
+        audited = ()
+
+        def main(self):
+            l1, l2 = Lock(), Lock()
+
+            def w1():
+                with l1:
+                    with l2:
+                        pass
+
+            def w2():
+                with l2:
+                    with l1:
+                        pass
+            ts = [MThread(target=w1), MThread(target=w2)]
+            for t in ts:
+                t.start()
+            for t in ts:
+                t.join()
+
+        def final(self, s):
+            return (s.status, [])
+
+    statuses = set()
+    stack = [([], [])]
+    while stack:
+        choices, expect = stack.pop()
+        exd = explore.run_harness(Dead, choices, expect, 0)
+        statuses.add(exd.status)
+        stack.extend(explore.children(exd.points, len(choices), 1, 0))
+    out.append(("a lock-order inversion is reported as a deadlock within one preemption", "deadlock" in statuses and "ok" in statuses, "statuses=%r" % sorted(statuses)))
+
+    # 5. virtual clock: a timed wait fires only when nothing else can run, and advances time exactly
+    def clock_main():
+        e = Event()
+        t0 = S.now
+        r = e.wait(7.5)
+        holder["clock"] = (r, S.now - t0)
+
+    run_one(clock_main)
+    out.append(("virtual clock advances by exactly the timeout of a forced timer", holder.get("clock") == (False, 7.5), repr(holder.get("clock"))))
+    return out
